@@ -19,7 +19,16 @@ Cases == { [n |-> 2, streams |-> <<Streams[i], Streams[j]>>, skew |-> <<0, k>>, 
          { [n |-> 4, streams |-> [t \in 1..4 |-> Streams[((t + r) % NS) + 1]], skew |-> [t \in 1..4 |-> (t * r) % 4], reps |-> 40] : r \in 0..(NS - 1) } \cup
          { [n |-> 8, streams |-> [t \in 1..8 |-> Streams[((t * (r + 1)) % NS) + 1]], skew |-> [t \in 1..8 |-> t % 3], reps |-> 25] : r \in 0..(IF Big THEN 5 ELSE 2) } \cup
          { [n |-> 16, streams |-> [t \in 1..16 |-> Streams[((t + r) % NS) + 1]], skew |-> [t \in 1..16 |-> t % 5], reps |-> 15] : r \in 0..(IF Big THEN 5 ELSE 1) }
+\* Artefact pool (spec/validation/C20_pool.json; the harness compiles every artefact once): operations are addressed by index
+\* (taken modulo the pool size by the harness).  A window of W consecutive operations is run by every thread of the case - half
+\* of the threads forwards, half backwards - so that every pool operation is executed by at least two threads at once.
+PoolOps == 300      \* >= the number of pool operations (curated 55 + sampled, about 290 in all); indices wrap
+W == 5
+Fwd(k) == [j \in 1..W |-> (k * W) + j - 1]
+Bwd(k) == [j \in 1..W |-> (k * W) + W - j]
+PoolCases == { [n |-> n, streams |-> [t \in 1..n |-> IF t % 2 = 1 THEN Fwd(k) ELSE Bwd(k)], skew |-> [t \in 1..n |-> (t * sk) % 4], reps |-> IF n = 2 THEN 30 ELSE 15] :
+               k \in 0..((PoolOps \div W) - 1), n \in (IF Big THEN {2, 4, 8} ELSE {2, 4}), sk \in (IF Big THEN {0, 1} ELSE {1}) }
 Init == phase = 0 /\ c = [n |-> 0]
-Next == phase = 0 /\ phase' = 1 /\ c' \in Cases
+Next == phase = 0 /\ phase' = 1 /\ (c' \in Cases \/ c' \in PoolCases)      \* (two sets: their elements are not comparable)
 Emit == phase = 1 => PrintT(ToJson(c))
 =============================================================================
